@@ -33,6 +33,12 @@ type C19Scenario struct {
 	Writers  [][]int `json:"writers,omitempty"` // per writer task: sequence of (counter*1000 + key)
 	Readers  int     `json:"readers,omitempty"`
 	Periods  int     `json:"periods,omitempty"`
+	// PhaseUs: the collector starts this many microseconds after the writers and readers (its tickers then fall at
+	// other phases of the minute, e.g. a collection that begins just before a minute boundary)
+	PhaseUs int64 `json:"phase_us,omitempty"`
+	// WriteStopMs > 0: the writers stop after this much simulated time; the collector and the readers go on, so the
+	// evictions that follow work on what the last non-empty collection left
+	WriteStopMs int `json:"write_stop_ms,omitempty"`
 	// e2e
 	R *RedisScenario `json:"redis,omitempty"`
 }
@@ -88,6 +94,25 @@ func (p c19) Gen(r *simhook.Rand, tier string, idx int) harness.Scenario {
 		sc.Counters = 2 + r.Intn(4)
 		sc.Readers = 1 + r.Intn(2)
 		sc.Periods = 1 + r.Intn(30)
+		switch r.Intn(4) {
+		case 0:
+			sc.PhaseUs = int64(r.Intn(60000000))
+		case 1:
+			// collections begin a moment before each minute boundary and may still be merging when it passes
+			sc.PhaseUs = 10000000 - int64([]int{50, 100, 500, 1000, 3000}[r.Intn(5)])
+			if sc.SlackMs == 0 {
+				sc.SlackMs = 1
+			}
+			if sc.Periods < 8 {
+				sc.Periods += 8
+			}
+			if r.Chance(2, 3) {
+				sc.WriteStopMs = 55000 + 60000*r.Intn(2)
+				if sc.WriteStopMs > 60000 && sc.Periods < 16 {
+					sc.Periods = 16
+				}
+			}
+		}
 		nkeys := 1 + r.Intn(30)
 		for w := 0; w < 1+r.Intn(3); w++ {
 			var seq []int
@@ -112,6 +137,13 @@ func (p c19) Gen(r *simhook.Rand, tier string, idx int) harness.Scenario {
 			rs.Class = "e2e-busy"
 		}
 		nkeys := 2 + r.Intn(70)
+		// key names: short, or long ones that only differ after their first 126..300 bytes (a report must name the
+		// keys that were accessed, whatever their length)
+		pad := ""
+		if r.Chance(1, 4) {
+			pad = strings.Repeat("k", []int{126, 127, 128, 129, 200, 300}[r.Intn(6)])
+		}
+		name := func(k int) string { return fmt.Sprintf("hk%s%d", pad, k) }
 		for ci := 0; ci < 1+r.Intn(3); ci++ {
 			cs := ConnScript{Name: fmt.Sprintf("c%d", ci)}
 			for i := 0; i < 20+r.Intn(120); i++ {
@@ -119,7 +151,7 @@ func (p c19) Gen(r *simhook.Rand, tier string, idx int) harness.Scenario {
 				if r.Chance(2, 3) {
 					k = r.Intn(1 + nkeys/6)
 				}
-				rq := world.Request{Args: world.Bins("GET", fmt.Sprintf("hk%d", k))}
+				rq := world.Request{Args: world.Bins("GET", name(k))}
 				switch r.Intn(12) {
 				case 2, 3:
 					if busy {
@@ -127,7 +159,7 @@ func (p c19) Gen(r *simhook.Rand, tier string, idx int) harness.Scenario {
 					}
 				case 4, 5, 6:
 					if busy {
-						rq = world.Request{Args: append(world.Bins("SET", fmt.Sprintf("hk%d", k)), world.Bin(strings.Repeat(fmt.Sprintf("v%d.", i), 40+r.Intn(60))))}
+						rq = world.Request{Args: append(world.Bins("SET", name(k)), world.Bin(strings.Repeat(fmt.Sprintf("v%d.", i), 40+r.Intn(60))))}
 					}
 				case 0:
 					rq = world.Request{Args: world.Bins("HOTKEY"), Wait: true}
@@ -330,7 +362,12 @@ func (p c19) runCollector(t *testing.T, sc *C19Scenario) harness.Outcome {
 		for i := range counters {
 			counters[i] = col.AllocCounter(fmt.Sprintf("backend-%d", i))
 		}
-		tw.Go("harness:collector-run", func() { col.Run(stop) })
+		tw.Go("harness:collector-run", func() {
+			if sc.PhaseUs > 0 {
+				simhook.Sleep(time.Duration(sc.PhaseUs) * time.Microsecond)
+			}
+			col.Run(stop)
+		})
 		deadline := time.Duration(sc.Periods) * 10 * time.Second
 		for wi, seq := range sc.Writers {
 			seq := seq
@@ -338,7 +375,11 @@ func (p c19) runCollector(t *testing.T, sc *C19Scenario) harness.Outcome {
 			tw.Go(fmt.Sprintf("harness:writer%d", wi), func() {
 				defer func() { writersLeft-- }()
 				per := len(seq)/sc.Periods + 1
+				begin := time.Now()
 				for i, x := range seq {
+					if sc.WriteStopMs > 0 && time.Since(begin) >= time.Duration(sc.WriteStopMs)*time.Millisecond {
+						return
+					}
 					k := fmt.Sprintf("k%d", x%1000)
 					accessed[k] = true
 					counters[(x/1000)%len(counters)].Incr(k)
